@@ -472,6 +472,29 @@ func elementUnderAllPredicate(fn *ssa.Function, ta *ssa.TypeAssert) bool {
 	if !ok {
 		return false
 	}
+	if allPredicateHoldsAt(fn, sl, ta, ta.AssertedType) {
+		return true
+	}
+	// the slice is a parameter of an unexported helper: the predicate succeeded at every call
+	if p, isP := unspill(sl).(*ssa.Parameter); isP && p.Parent() == fn {
+		vals, ok := callerValues(p, -1)
+		if !ok || len(vals) == 0 {
+			return false
+		}
+		for _, cv := range vals {
+			if cv.site == nil || !allPredicateHoldsAt(cv.caller, cv.val, cv.site.(ssa.Instruction), ta.AssertedType) {
+				return false
+			}
+		}
+		return true
+	}
+	return false
+}
+
+// allPredicateHoldsAt: on every path to `at`, a call of an all-elements predicate of type t on
+// the slice sl returned true.
+func allPredicateHoldsAt(fn *ssa.Function, sl ssa.Value, at ssa.Instruction, t types.Type) bool {
+	ta := struct{ AssertedType types.Type }{t}
 	fl := &boolFlow{fn: fn, entry: false}
 	fl.edge = func(b *ssa.BasicBlock, i int) bool {
 		return anyEdgeFact(b, i, func(v ssa.Value, trueIdx int) bool {
@@ -490,7 +513,7 @@ func elementUnderAllPredicate(fn *ssa.Function, ta *ssa.TypeAssert) bool {
 		})
 	}
 	fl.solve()
-	return fl.at(ta)
+	return fl.at(at)
 }
 
 func dominatedBySameAssert(ta *ssa.TypeAssert) bool {
